@@ -6,6 +6,24 @@ NOTE = ("Trusted base: Python evaluation order and C3 MRO; documented semantics 
         "not the run-time behaviour (DESIGN.md section 7/8).")
 
 CLAIMS = {
+    "C05": ("Reduction: the lag matrix and target index map of the sliding-window transform as index-map identities (row r, lag c holds "
+            "z[r+c]; target j is exactly fh_j steps after the window end; all full windows once; feasibility guard tight), per-step / "
+            "multi-output wiring of clones, last-window extraction bounds, recursive and dirrec feedback positions, registry <-> class "
+            "attribute <-> validator tables. What the wrapped regressor computes is not decided.", "3/C05"),
+    "C09": ("Composite forecasters: representation typestate of the transformed-target pipeline (forward fit_transform chain on clones, "
+            "reverse inverse chain honouring the skip tag, same representation at update), ensemble aggregator name <-> operator table on "
+            "column-wise concatenated member forecasts, multiplexer selection and delegation, stacking hold-out order. Numeric equality "
+            "with a manual composition is not decided.", "3/C09"),
+    "C10": ("Update semantics: merge operand order (new data wins), cutoff move on non-empty batches only, refit on all remembered data "
+            "exactly when update_params, cutoff save/restore pairing in a finally, moving-cutoff bookkeeping (forecast and cutoff appended "
+            "after each update), update_params/X forwarded by every composite update. Forecast equality with a fresh fit is not decided.", "3/C10"),
+    "C11": ("Elementary forecasters: window-length decision table of the naive forecaster, step selection and tiling arithmetic, seasonal "
+            "alignment as a congruence mod sp through pad/reshape/nanmean/tile, drift coefficient, in-sample cutoff formula, common time "
+            "origin of polynomial-trend fit and predict, constructor options reaching the wrapped statsmodels model. Numerical agreement "
+            "with least squares / statsmodels is not decided.", "3/C11"),
+    "C14": ("Closed-form transformers, structural clauses only: length and position maps of pad / truncate / sliding-window segmenter / "
+            "interpolation grids / interval slices, imputation rule-name <-> operator table and option forwarding, row correspondence of "
+            "per-instance loops. The numeric formulas (PAA frames, slopes, ACF values) are not decided.", "3/C14"),
     "C02": ("ForecastingHorizon conversions interpreted abstractly over a symbolic sorted step vector: to_absolute/to_relative are inverse "
             "affine maps (cutoff +/- steps), in-/out-of-sample masks partition at step 0 and drive to_in_sample/to_out_of_sample/is_all_*, "
             "indexer = steps - 1 for relative and absolute horizons, _check_values rejects duplicates / unsupported types and sorts on every "
